@@ -66,6 +66,16 @@ inline Words sub(Words const& a, Words const& b)
     trim(r);
     return r;
 }
+inline Words shlw(Words const& a, int k)
+{
+    Words r(a.size() + (size_t)k / 64 + 1, 0);
+    for (size_t i = 0; i < a.size(); ++i) {
+        r[i + (size_t)k / 64] |= a[i] << (k % 64);
+        if (k % 64) r[i + (size_t)k / 64 + 1] |= a[i] >> (64 - k % 64);
+    }
+    trim(r);
+    return r;
+}
 inline int bitlen(Words a)
 {
     trim(a);
@@ -171,6 +181,10 @@ T make(Words const& words)
         return wrap_leaf<T>((leaf_t<T>)u);
     }
 }
+// does the representation widen by itself (an elastic_integer somewhere in the wrapper chain)?
+template<class T> struct has_elastic : std::false_type {};
+template<class R, class Tag> struct has_elastic<cnl::_impl::wrapper<R, Tag>> : has_elastic<R> {};
+template<class R, int D, class N> struct has_elastic<cnl::_impl::wrapper<R, cnl::elastic_tag<D, N>>> : std::true_type {};
 template<class T> struct exp_of { static constexpr int value = 0; };
 template<class R, int E> struct exp_of<cnl::scaled_integer<R, cnl::power<E, 2>>> { static constexpr int value = E; };
 
@@ -273,8 +287,8 @@ T inject(Operand const& o)
     return make<T>(w);
 }
 
-enum Op { ADD, SUB, MUL, DIV, MOD, LT };
-inline char const* opname(Op o) { return o == ADD ? "+" : o == SUB ? "-" : o == MUL ? "*" : o == DIV ? "/" : o == MOD ? "%" : "<"; }
+enum Op { ADD, SUB, MUL, DIV, MOD, LT, EQ, QUO };
+inline char const* opname(Op o) { return o == ADD ? "+" : o == SUB ? "-" : o == MUL ? "*" : o == DIV ? "/" : o == MOD ? "%" : o == LT ? "<" : o == EQ ? "=" : "q"; }
 
 template<class A, class B, class F>
 void run_op(int kid, Op op, A const& a, B const& b, std::string const& ha, std::string const& hb, F&& f)
@@ -296,16 +310,17 @@ void binop(char const* desc, int kid)
     if (!kernel_selected(desc)) return;
     g.cur_kernel = desc;
     Rng rng(mix(env_seed(), hash_str(desc)));
-    printf("{\"t\":\"kd\",\"id\":%d,\"k\":\"%s\",\"bits1\":%d,\"signed1\":%d,\"digits1\":%d,\"exp1\":%d,\"bits2\":%d,\"signed2\":%d,\"digits2\":%d,\"exp2\":%d,\"limb1\":%d,\"limb2\":%d,\"rm\":%d}\n", kid, desc, storage_bits<A>(),
-           (int)cnl::numbers::signedness_v<A>, (int)cnl::digits_v<A>, exp_of<A>::value, storage_bits<B>(), (int)cnl::numbers::signedness_v<B>, (int)cnl::digits_v<B>, exp_of<B>::value, limb_bits<A>(), limb_bits<B>(), RM);
+    printf("{\"t\":\"kd\",\"id\":%d,\"k\":\"%s\",\"bits1\":%d,\"signed1\":%d,\"digits1\":%d,\"exp1\":%d,\"bits2\":%d,\"signed2\":%d,\"digits2\":%d,\"exp2\":%d,\"limb1\":%d,\"limb2\":%d,\"rm\":%d,\"fixed\":%d}\n", kid, desc, storage_bits<A>(),
+           (int)cnl::numbers::signedness_v<A>, (int)cnl::digits_v<A>, exp_of<A>::value, storage_bits<B>(), (int)cnl::numbers::signedness_v<B>, (int)cnl::digits_v<B>, exp_of<B>::value, limb_bits<A>(), limb_bits<B>(), RM, (int)!(has_elastic<A>::value && has_elastic<B>::value));
     constexpr int DA = cnl::digits_v<A>, DB = cnl::digits_v<B>;
-    Gen ga{rng, DA, limb_bits<A>()}, gb{rng, DB, limb_bits<B>()};
+    Gen ga{rng, DA, std::min(64, limb_bits<A>())}, gb{rng, DB, std::min(64, limb_bits<B>())};  // (single-word __int128 storage: 64-bit alphabet)
     long pairs = env_long("VERIF_BIGPAIRS", 1500);
     constexpr auto has = [](Op o) { return (OPS >> (unsigned)o & 1u) != 0; };
     for (long p = 0; p < pairs; ++p) {
         Operand oa, ob;
+        bool same_sign = false;
         int style = (int)(p % 4);
-        if (style == 3 && (has(DIV) || has(MOD)) && DA > 2) {
+        if (style == 3 && (has(DIV) || has(MOD) || has(QUO)) && DA > 2) {
             // dividend constructed from a quotient and a divisor: a = q*v + r, r in {0, v-1, random below v}
             int vb = 1 + (int)rng.below((uint64_t)std::min(DB, DA - 1));
             Words v = gb.any(vb);
@@ -321,12 +336,31 @@ void binop(char const* desc, int kid)
             oa.mag = add(mul(q, v), r);
             if (bitlen(oa.mag) > DA) oa.mag = q;
             ob.mag = v;
+        } else if (style == 2 && (has(LT) || has(EQ)) && exp_of<A>::value != exp_of<B>::value) {
+            // comparisons across exponents: the finer operand is the coarser one aligned, exactly or off by one unit
+            constexpr int gap = exp_of<A>::value < exp_of<B>::value ? exp_of<B>::value - exp_of<A>::value : exp_of<A>::value - exp_of<B>::value;
+            constexpr bool a_finer = exp_of<A>::value < exp_of<B>::value;
+            int room = (a_finer ? DA : DB) - gap;
+            Gen& gc = a_finer ? gb : ga;
+            Words coarse = room > 0 ? gc.any(std::min(room, a_finer ? DB : DA)) : Words{0};
+            Words fine = shlw(coarse, gap);
+            switch (rng.below(3)) {
+            case 0: break;
+            case 1: fine = add(fine, Words{1}); break;
+            default: if (bitlen(fine) > 0) fine = sub(fine, Words{1}); break;
+            }
+            if (bitlen(fine) > (a_finer ? DA : DB)) fine = shlw(coarse, gap);
+            if (room <= 0) fine = (a_finer ? ga : gb).any(a_finer ? DA : DB);
+            (a_finer ? oa : ob).mag = fine;
+            (a_finer ? ob : oa).mag = coarse;
+            same_sign = true;
         } else {
             oa.mag = style == 0 ? ga.random(DA) : ga.any(DA);
             ob.mag = style == 0 ? gb.random(DB) : gb.any(DB);
         }
         oa.neg = cnl::numbers::signedness_v<A> && (rng.next() & 1) && bitlen(oa.mag) > 0;
         ob.neg = cnl::numbers::signedness_v<B> && (rng.next() & 1) && bitlen(ob.mag) > 0;
+        if (same_sign && cnl::numbers::signedness_v<A> && cnl::numbers::signedness_v<B>) ob.neg = oa.neg && bitlen(ob.mag) > 0, oa.neg = oa.neg && bitlen(oa.mag) > 0;
         A a = inject<A>(oa);
         B b = inject<B>(ob);
         std::string ha = hex(a), hb = hex(b);
@@ -334,10 +368,12 @@ void binop(char const* desc, int kid)
         if constexpr (has(SUB)) run_op(kid, SUB, a, b, ha, hb, [](A const& x, B const& y) { return x - y; });
         if constexpr (has(MUL)) run_op(kid, MUL, a, b, ha, hb, [](A const& x, B const& y) { return x * y; });
         if (bitlen(ob.mag) > 0) {
+            if constexpr (has(QUO)) run_op(kid, QUO, a, b, ha, hb, [](A const& x, B const& y) { return cnl::quotient(x, y); });
             if constexpr (has(DIV)) run_op(kid, DIV, a, b, ha, hb, [](A const& x, B const& y) { return x / y; });
             if constexpr (has(MOD)) run_op(kid, MOD, a, b, ha, hb, [](A const& x, B const& y) { return x % y; });
         }
         if constexpr (has(LT)) run_op(kid, LT, a, b, ha, hb, [](A const& x, B const& y) { return x < y; });
+        if constexpr (has(EQ)) run_op(kid, EQ, a, b, ha, hb, [](A const& x, B const& y) { return x == y; });
     }
     fflush(stdout);
     g.cur_kernel = "";
